@@ -78,8 +78,8 @@ def run(R):
     dom = EnumDomain('SignatureType', members + ['<other>'])
     var = None
     for t in vs.cfg.nodes:
-        if t.kind == 'test' and isinstance(t.ast, ast.Compare) and ast.unparse(t.ast.left).endswith('.signature_type'):
-            var = ast.unparse(t.ast.left)
+        if t.kind == 'test' and isinstance(t.ast, ast.Compare) and full_text(vs, t.ast.left).endswith('.signature_type'):
+            var = ast.unparse(t.ast.left)      # (possibly a local holding it)
     R.need(var, '_verify_sig: no dispatch on signature_type found')
     for m in dom.values:
         removed = pruned_edges(vs, var, dom, m)
